@@ -17,7 +17,7 @@ import (
 // 75..150 so that the multishift path (n > NMIN = 75) runs.
 func drawN(t *rapid.T) int {
 	if rapid.IntRange(0, 9).Draw(t, "big") == 0 {
-		return rapid.SampledFrom([]int{74, 75, 76, 77, 80, 90, 100, 120, 150}).Draw(t, "nbig")
+		return rapid.SampledFrom([]int{74, 75, 76, 77, 80, 90, 100, 120, 149, 150, 151, 160, 200}).Draw(t, "nbig") // nh >= 150: Dlaqr5 accumulates reflectors (kacc22 > 0)
 	}
 	return dimN(t, "n", 40, 0, 1, 2, 10, 11, 14, 15, 16)
 }
@@ -249,7 +249,7 @@ func drawGebal(t *rapid.T) kase {
 }
 
 func TestGebal(t *testing.T) {
-	vk.Run(t, "gebal", vk.Opts{Quick: 400, Thorough: 14000}, drawGebal, checkGebal)
+	vk.Run(t, "gebal", vk.Opts{Quick: 1200, Thorough: 14000}, drawGebal, checkGebal)
 }
 
 // ---- Dgehrd / Dgehd2 / Dorghr / Dormhr ---------------------------------------------
@@ -440,7 +440,15 @@ func drawGehrd(t *rapid.T) kase {
 	c.K = rapid.IntRange(0, 12).Draw(t, "k")
 	c.N = dimN(t, "n", 40, dimBoundaries...)
 	if rapid.IntRange(0, 7).Draw(t, "big") == 0 {
-		c.N = rapid.IntRange(41, 170).Draw(t, "nbig") // blocked Dgehrd needs ihi-ilo+1 > nx = 128
+		c.N = rapid.SampledFrom([]int{64, 100, 128, 129, 130, 140, 161, 170}).Draw(t, "nbig") // blocked Dgehrd needs ihi-ilo+1 > nx = 128
+		if rapid.IntRange(0, 2).Draw(t, "bigfull") != 0 {
+			c.Ilo, c.Ihi = 0, 1000
+			c.Pad = drawPads(t, 3)
+			c.LW = drawLW(t)
+			c.Cls = rapid.IntRange(0, numSquareCls-1).Draw(t, "cls")
+			c.Seed = drawSeed(t)
+			return c
+		}
 	}
 	c.Ilo, c.Ihi = drawIloIhi(t)
 	c.Pad = drawPads(t, 3)
@@ -452,7 +460,7 @@ func drawGehrd(t *rapid.T) kase {
 }
 
 func TestGehrd(t *testing.T) {
-	vk.Run(t, "gehrd", vk.Opts{Quick: 300, Thorough: 9000}, drawGehrd, checkGehrd)
+	vk.Run(t, "gehrd", vk.Opts{Quick: 900, Thorough: 9000}, drawGehrd, checkGehrd)
 }
 
 // ---- Dhseqr / Dlahqr / Dlaqr04 ----------------------------------------------------
@@ -728,7 +736,7 @@ func drawHseqr(t *rapid.T) kase {
 }
 
 func TestHseqr(t *testing.T) {
-	vk.Run(t, "hseqr", vk.Opts{Quick: 450, Thorough: 12000}, drawHseqr, checkHseqr)
+	vk.Run(t, "hseqr", vk.Opts{Quick: 1500, Thorough: 12000}, drawHseqr, checkHseqr)
 }
 
 // ---- Dgeev -------------------------------------------------------------------------
@@ -954,7 +962,7 @@ func drawGeev(t *rapid.T) kase {
 }
 
 func TestGeev(t *testing.T) {
-	vk.Run(t, "geev", vk.Opts{Quick: 450, Thorough: 12000}, drawGeev, checkGeev)
+	vk.Run(t, "geev", vk.Opts{Quick: 1500, Thorough: 12000}, drawGeev, checkGeev)
 }
 
 // ---- Dtrevc3 ----------------------------------------------------------------------
@@ -1146,7 +1154,7 @@ func drawTrevc3(t *rapid.T) kase {
 }
 
 func TestTrevc3(t *testing.T) {
-	vk.Run(t, "trevc3", vk.Opts{Quick: 300, Thorough: 9000}, drawTrevc3, checkTrevc3)
+	vk.Run(t, "trevc3", vk.Opts{Quick: 900, Thorough: 9000}, drawTrevc3, checkTrevc3)
 }
 
 // ---- Dtrexc / Dlaexc ----------------------------------------------------------------
@@ -1315,7 +1323,7 @@ func drawTrexc(t *rapid.T) kase {
 }
 
 func TestTrexc(t *testing.T) {
-	vk.Run(t, "trexc", vk.Opts{Quick: 400, Thorough: 14000}, drawTrexc, checkTrexc)
+	vk.Run(t, "trexc", vk.Opts{Quick: 1200, Thorough: 14000}, drawTrexc, checkTrexc)
 }
 
 // ---- Dlanv2 -----------------------------------------------------------------------------
@@ -1395,4 +1403,163 @@ func TestLanv2(t *testing.T) {
 		c.Sc = rapid.SampledFrom([]int{0, 0, 400, -400}).Draw(t, "sc")
 		return c
 	}, checkLanv2)
+}
+
+// ---- Dlaqr5 ------------------------------------------------------------------------
+
+// fields: J[0] wantt, J[1] wantz (0 no, 1 identity start, 2 orthogonal start), J[2]
+// kacc22, J[3] number of shift pairs; N, Ilo/Ihi -> ktop/kbot, K -> nv, P -> nh
+// (0: n), Pad[0] ldh, Pad[1] ldz, Pad[2..4] ldu/ldwv/ldwh, Cls
+//
+// One multi-shift sweep is an orthogonal similarity: with U the accumulated
+// transformation, H' = UᵀHU stays upper Hessenberg and Z' = ZU. Reaches the
+// "accumulate reflections" code (kacc22 = 1, 2), which Dhseqr never selects
+// because Iparmq returns at most 4 shifts.
+func checkLaqr5(c kase) *vk.Failure {
+	n := c.N
+	rng := c.rng(17)
+	ktop, kbot := c.ilohi(n)
+	if kbot-ktop < 3 && n >= 4 { // a sweep needs room for a bulge
+		ktop, kbot = 0, n-1
+	}
+	h0 := makeHess(c.Cls, n, ktop, kbot, rng)
+	wantt, wantz := c.J[0] == 1, c.J[1] != 0
+	ns := 2 * max(1, c.J[3])
+	sr, si := make([]float64, ns), make([]float64, ns)
+	for i := 0; i < ns; i += 2 {
+		if rng.Intn(2) == 0 {
+			x, y := rng.Finite(), 0.25+math.Abs(rng.Finite())
+			sr[i], si[i], sr[i+1], si[i+1] = x, y, x, -y
+		} else {
+			sr[i], sr[i+1] = rng.Finite(), rng.Finite()
+		}
+	}
+	ldh := n + c.Pad[0]
+	h := newPmat("h", n, n, ldh, rng, false).fill(h0)
+	z0 := eye(n)
+	if c.J[1] == 2 {
+		z0 = randOrth(n, rng)
+	}
+	zr, ldz := 0, 1+c.Pad[1]
+	if wantz {
+		zr, ldz = n, n+c.Pad[1]
+	}
+	z := newPmat("z", zr, zr, ldz, rng, false)
+	if wantz {
+		z.fill(z0)
+	}
+	nv, nh := c.K, c.P
+	if nv <= 0 || nv > n {
+		nv = n
+	}
+	if nh <= 0 || nh > n {
+		nh = n
+	}
+	srv := newPvec("sr", ns, rng, true).fillVec(sr)
+	siv := newPvec("si", ns, rng, true).fillVec(si)
+	v := newPmat("v", ns/2, 3, 3+c.Pad[2]%2, rng, false)
+	ldu, ldwv, ldwh := 2*ns+c.Pad[2], 2*ns+c.Pad[3], nh+c.Pad[4]
+	u := newPmat("u", 2*ns, 2*ns, ldu, rng, false)
+	wv := newPmat("wv", nv, 2*ns, ldwv, rng, false)
+	wh := newPmat("wh", 2*ns, nh, ldwh, rng, false)
+	if f := runPlain(func() {
+		impl.Dlaqr5(wantt, wantz, c.J[2], n, ktop, kbot, ns, srv.data, siv.data, h.data, ldh, 0, n-1, z.data, ldz,
+			v.data, v.ld, u.data, ldu, nv, wv.data, ldwv, nh, wh.data, ldwh)
+	}, h, z, srv, siv, v, u, wv, wh); f != nil {
+		return f
+	}
+	vk.Class(fmt.Sprintf("laqr5:wantt=%v,wantz=%v,kacc22=%d", wantt, wantz, c.J[2]))
+	vk.Class(fmt.Sprintf("laqr5:shifts=%d", ns))
+	vk.Sample("laqr5", c)
+	nonTrivial(c, n, h0, wantz, anyPad(c.Pad, 2), false)
+	if !wantz {
+		if f := z.same("unrequested-z-written"); f != nil {
+			return f
+		}
+	}
+	if f := firstFail(h.elemsFinite(), z.elemsFinite()); f != nil {
+		return f
+	}
+	h1 := h.dense()
+	nh0 := frob(h0)
+	tol := cN * float64(n) * eps * nh0
+	var low float64
+	for i := ktop; i <= kbot; i++ {
+		for j := ktop; j+1 < i; j++ {
+			low = math.Hypot(low, h1.d[i*n+j])
+		}
+	}
+	if !(low <= tol) {
+		return vk.Failf("sweep-leaves-bulge", "Dlaqr5(kacc22=%d) n=%d ktop=%d kbot=%d shifts=%d: norm of the block below its first subdiagonal is %.3g > %.3g", c.J[2], n, ktop, kbot, ns, low, tol)
+	}
+	blk := func(a mat) mat { return a.sub(ktop, kbot+1, ktop, kbot+1) }
+	if wantz {
+		z1 := z.dense()
+		if eo := orthCols(z1); !(eo <= cN*float64(n)*eps) {
+			return vk.Failf("z-not-orthogonal", "Dlaqr5(kacc22=%d) n=%d: ||ZᵀZ-I||_F = %.3g", c.J[2], n, eo)
+		}
+		uu := mul(z0.T(), z1) // the accumulated sweep transformation
+		t := mul(mul(uu.T(), h0), uu)
+		if wantt {
+			hh := h1.clone()
+			for i := 0; i < n; i++ {
+				for j := 0; j+1 < i; j++ {
+					hh.d[i*n+j] = 0
+				}
+			}
+			if r := frob(sub(t, hh)); !(r <= tol) {
+				return vk.Failf("similarity-residual", "Dlaqr5(wantt,wantz,kacc22=%d) n=%d ktop=%d kbot=%d shifts=%d nv=%d nh=%d: ||UᵀHU - H'||_F = %.3g > %.3g", c.J[2], n, ktop, kbot, ns, nv, nh, r, tol)
+			}
+		} else {
+			hb := blk(h1)
+			for i := 0; i < hb.r; i++ {
+				for j := 0; j+1 < i; j++ {
+					hb.d[i*hb.c+j] = 0
+				}
+			}
+			if r := frob(sub(blk(t), hb)); !(r <= tol) {
+				return vk.Failf("block-similarity-residual", "Dlaqr5(wantz,kacc22=%d) n=%d ktop=%d kbot=%d shifts=%d: ||(UᵀHU - H')[block]||_F = %.3g > %.3g", c.J[2], n, ktop, kbot, ns, r, tol)
+			}
+		}
+	} else {
+		// without Z: orthogonal invariants of the active block
+		b0, b1 := blk(h0), blk(h1)
+		for i := 0; i < b1.r; i++ {
+			for j := 0; j+1 < i; j++ {
+				b1.d[i*b1.c+j] = 0
+			}
+		}
+		if d := math.Abs(frob(b0) - frob(b1)); !(d <= tol) {
+			return vk.Failf("block-norm", "Dlaqr5(kacc22=%d) n=%d: Frobenius norm of the active block changed by %.3g > %.3g", c.J[2], n, d, tol)
+		}
+		var t0, t1 vk.DD
+		for i := 0; i < b0.r; i++ {
+			t0.Add(b0.d[i*b0.c+i])
+			t1.Add(b1.d[i*b1.c+i])
+		}
+		if d := math.Abs(t0.Float() - t1.Float()); !(d <= tol) {
+			return vk.Failf("block-trace", "Dlaqr5(kacc22=%d) n=%d: trace of the active block changed by %.3g > %.3g", c.J[2], n, d, tol)
+		}
+	}
+	return nil
+}
+
+func drawLaqr5(t *rapid.T) kase {
+	c := kase{R: "Dlaqr5"}
+	c.J[0] = rapid.IntRange(0, 1).Draw(t, "wantt")
+	c.J[1] = rapid.IntRange(0, 2).Draw(t, "wantz")
+	c.J[2] = rapid.IntRange(0, 2).Draw(t, "kacc22")
+	c.J[3] = rapid.IntRange(1, 6).Draw(t, "pairs")
+	c.N = rapid.IntRange(4, 48).Draw(t, "n")
+	c.Ilo, c.Ihi = drawIloIhi(t)
+	c.K = rapid.SampledFrom([]int{0, 0, 1, 2, 3, 7}).Draw(t, "nv")
+	c.P = rapid.SampledFrom([]int{0, 0, 1, 2, 3, 7}).Draw(t, "nh")
+	c.Pad = drawPads(t, 5)
+	c.Cls = rapid.SampledFrom([]int{clsGauss, clsGauss, clsHessenberg, clsSymRepeated, clsCompanion, clsOrthogonal, clsGraded}).Draw(t, "cls")
+	c.Seed = drawSeed(t)
+	return c
+}
+
+func TestLaqr5(t *testing.T) {
+	vk.Run(t, "laqr5", vk.Opts{Quick: 800, Thorough: 12000}, drawLaqr5, checkLaqr5)
 }
